@@ -227,16 +227,26 @@ impl Compiler {
         Ok(())
     }
 
-    /// Stmt::Block: exactly the block generator, nothing added
+    /// Stmt::Block: the block as a value (compile_block_value), then Pop - a block statement leaves nothing behind, and
+    /// as the last statement of an enclosing value block its value becomes that block's value (trailing Pop)
     fn arm_stmt_block(&mut self, stmts: &Vec<Stmt>) -> (r: Result<(), Error>)
         requires gen_inv(*old(self))
         ensures
-            //@VACUITY
             sym_wf(final(self).symbols),
-            block_post(*old(self), *final(self), stmts@, r is Ok),
+            //@VACUITY
+            r is Ok ==> final(self).last_instruction == Some(OpCode::Pop) && final(self).instructions@.last() == opcode_byte(OpCode::Pop),
+            r is Ok ==> exists|v: Compiler| block_value_post(*old(self), v, stmts@) && final(self).instructions@ == v.instructions@.push(opcode_byte(OpCode::Pop)) && final(self).log@ == v.log@,
             r is Ok ==> gen_post(*old(self), *final(self), true),
     {
+//@GHOST after="self.compile_block_value(stmts)?;" let ghost s1 = *self;
 //@ARM file=compiler.rs fn=compile_statement impl=Compiler arm="Stmt::Block" rules="R1;R4"
+        proof {
+            assert(self.instructions@ =~= s1.instructions@ + seq![opcode_byte(OpCode::Pop)]);
+            lemma_gen_post_append(s1, *self, seq![opcode_byte(OpCode::Pop)]);
+            lemma_gen_post_trans(*old(self), s1, *self, false, true);
+            lemma_gen_post_upgrade(*old(self), *self);
+            assert(block_value_post(*old(self), s1, stmts@) && self.instructions@ == s1.instructions@.push(opcode_byte(OpCode::Pop)) && self.log@ == s1.log@);
+        }
         Ok(())
     }
 
